@@ -68,7 +68,7 @@ type IfaceRes struct {
 	Msg  string `json:"msg,omitempty"`
 	API  string `json:"api"`
 	St   string `json:"st"`
-	Byid bool   `json:"byid"`
+	Byid string `json:"byid"`
 	Bin  bool   `json:"bin"`
 	D    Dump   `json:"d"`
 }
@@ -648,7 +648,11 @@ func (c *c01) iface(doc []byte, t byte, items []PItem) {
 			name += "/native"
 		}
 		func() {
-			ir := IfaceRes{API: name, Byid: o.byid, Bin: o.bin, D: dumpIface(nil)}
+			mode := "int"
+			if o.byid {
+				mode = "id"
+			}
+			ir := IfaceRes{API: name, Byid: mode, Bin: o.bin, D: dumpIface(nil)}
 			defer func() {
 				if e := recover(); e != nil {
 					ir.St = "panic"
